@@ -177,6 +177,14 @@ func eventOracle(w *worldRun) (string, string) {
 		visible := logs[:m.Persisted]
 		found := false
 		why := ""
+		// every event names the ledger whose log holds the entry (another ledger of the process was opened before this one)
+		var named struct {
+			Ledger string `json:"ledger"`
+		}
+		_ = json.Unmarshal(env.Payload, &named)
+		if named.Ledger != "l1" {
+			return fmt.Sprintf("event %s names ledger %q, the entry it describes is in the log of ledger \"l1\" (payload %s)", env.Type, named.Ledger, env.Payload), "event-ledger:" + env.Type
+		}
 		switch env.Type {
 		case events.EventTypeCommittedTransactions:
 			var p struct {
